@@ -82,8 +82,10 @@ func main() {
 	run.Rule = "certificates: well-formed certificates of the five classes with 0-2 of 27 mutations " +
 		"(usages, constraints, key ids, ISD-AS attributes), real x509 DER built per case, ValidateCert type compared; " +
 		"payloads: valid base/update TRCs over 3-8 certificates with 0, 1 or 2 of 30 mutations (23 aimed at one " +
-		"rule of TRC.Validate each, 7 at the accepting side of a boundary), verdict and sentinel error class compared; " +
-		"every accepted payload is encoded, decoded and compared field by field on the Go side; " +
+		"rule of TRC.Validate each, 7 at the accepting side of a boundary), plus 30 valid payloads on the boundaries of the " +
+		"documented ranges (ISD 1/2/65534/65535, base/serial 1, 2^31, 2^63-1, quorum 1/max, grace 0/large, validity 1 s / " +
+		"epoch..9999, AS 1/2^32-1/2^32/2^48-1, extreme vote indices, 1024-char description); verdict and sentinel error class compared; " +
+		"every accepted payload is encoded, decoded and compared field by field on the Go side (a failure is a violation); " +
 		"non-trivial = every payload case, and certificate cases that classify or were mutated"
 	rng := vgen.NewRand(run.Seed)
 	f := trcgen.NewFactory()
@@ -134,12 +136,21 @@ func main() {
 
 	// 2. payloads
 	nt := run.Count(650, 30000)
-	for i := 0; i < nt; i++ {
+	for i := 0; i < nt+trcgen.Boundaries; i++ {
 		r := rng.Fork(uint64(1000000 + i))
-		t := trcgen.GenTRC(r, uint64(r.Range(1, 3)), r.Chance(2, 5), trcgen.RandShape(r), 10*r.Intn(5))
+		isd := uint64(r.Range(1, 3))
+		if r.Chance(1, 8) {
+			isd = vgen.Pick(r, uint64(trcgen.MaxISD-1), trcgen.MaxISD)
+		}
+		t := trcgen.GenTRC(r, isd, r.Chance(2, 5), trcgen.RandShape(r), 10*r.Intn(5))
 		var muts []string
 		nm := 0
 		switch {
+		case i >= nt:
+			// valid payloads on the boundaries of the documented ranges, every run
+			var w string
+			t, w = trcgen.Boundary(r, i-nt)
+			muts = append(muts, "boundary:"+w)
 		case i < 2*trcgen.TRCMutations:
 			nm = 1
 		default:
@@ -199,6 +210,46 @@ func main() {
 			continue
 		}
 		run.Tally("roundtrip:ok")
+	}
+	// quorum at its upper boundary needs 255 sensitive and 255 regular voters: 511 certificates.
+	// Quick tier: implementation only (accepted, round trip; 256 rejected as invalid quorum size);
+	// thorough tier: also as model cases.
+	for _, q := range []int64{255, 256} {
+		r := rng.Fork(uint64(3000000 + q))
+		t := trcgen.GenTRC(r, trcgen.MaxISD, true, trcgen.Shape{Sens: int(q), Reg: int(q), Root: 1}, 0)
+		t.Quorum = q
+		if run.Tier == "thorough" && !run.Want() {
+			run.Skip()
+			continue
+		}
+		real, t := f.BuildTRC(t)
+		verr := real.Validate()
+		code := validateCode(verr)
+		id := -1
+		if run.Tier == "thorough" {
+			id = run.Add("validate", vgen.App("PKI.CValidate", t.Gallina(), vgen.Z(int64(code)))+"%Z",
+				fmt.Sprint("quorum", q), true, map[string]any{"mutations": []string{fmt.Sprint("boundary:quorum-", q)}, "impl_code": code})
+		}
+		switch {
+		case q == 255 && verr != nil:
+			run.Violate(id, "quorum 255 with 255 sensitive and 255 regular voters rejected: "+verr.Error(), q)
+		case q == 256 && code != 6:
+			run.Violate(id, fmt.Sprint("quorum 256 not rejected as invalid quorum size: ", verr), q)
+		case q == 255:
+			raw, err := real.Encode()
+			if err != nil {
+				run.Violate(id, "valid TRC does not encode: "+err.Error(), q, "roundtrip")
+				break
+			}
+			dec, err := cppki.DecodeTRC(raw)
+			if err != nil {
+				run.Violate(id, "encoded valid TRC does not decode: "+err.Error(), q, "roundtrip")
+			} else if d := sameTRC(&real, &dec); d != "" {
+				run.Violate(id, "round trip changes "+d, q, "roundtrip")
+			} else {
+				run.Tally("roundtrip:ok-quorum-255")
+			}
+		}
 	}
 	run.Extra("distinct_certificates_built", f.NumCerts())
 	run.Finish()
